@@ -12,6 +12,7 @@ class StdModel:
         self.used = set()
         self.vec_types = {}     # C element type -> typedef name
         self.arr_types = {}     # (elem ctype, N) -> typedef name
+        self.rit_types = {}
 
     # ----- types -----
     def vec_name(self, el_ct):
@@ -56,7 +57,10 @@ class StdModel:
         m = re.fullmatch(r'std::reverse_iterator<(.+)>', t)
         if m:
             self.used.add('std::reverse_iterator (struct {base})')
-            return 'xv_rit_' + san(em.ctype(m.group(1)).replace('*', '_p'))
+            el = em.ctype(m.group(1))
+            nm = 'xv_rit_' + san(el.replace('*', '_p'))
+            self.rit_types[el] = nm
+            return nm
         return None
 
     def is_value_type(self, t, em):
@@ -170,6 +174,9 @@ class StdModel:
             op = q[len('__gnu_cxx::operator'):]
             self.used.add('__normal_iterator ' + op)
             return '(%s %s %s)' % (em.lv(args[0]), op, em.lv(args[1]))
+        if q in ('snprintf', 'std::snprintf', 'sprintf', 'std::sprintf'):
+            self.used.add('exception message text dropped (snprintf)')
+            return '0'
         if q in ('std::move', 'std::forward'):
             return em.addr(args[0])
         if q == 'std::addressof' or q == 'std::__addressof':
@@ -205,6 +212,12 @@ class StdModel:
             if len(args) == 1:
                 return '(*%s = %s)' % (target, em.rv_or_lv(args[0]))
             raise Unsupported('std construct ' + tstr)
+        if t.startswith('std::reverse_iterator<'):
+            self.used.add('std::reverse_iterator(iterator)')
+            if len(args) == 1 and not strip_cv(dq(args[0]['type'])).rstrip('&').startswith('std::reverse_iterator'):
+                return '((%s)->current = %s)' % (target, em.rv_or_lv(args[0]))
+            if len(args) == 1:
+                return '(*%s = %s)' % (target, em.rv_or_lv(args[0]))
         if self.type(t, em) == 'xv_str':
             if len(args) == 0:
                 self.used.add('std::string()')
@@ -245,4 +258,6 @@ class StdModel:
             out.append('typedef struct { %s* data; unsigned long size; } %s;' % (el, nm))
         for (el, n), nm in self.arr_types.items():
             out.append('typedef struct { %s a[%s]; } %s;' % (el, n, nm))
+        for el, nm in self.rit_types.items():
+            out.append('typedef struct { %s current; } %s;' % (el, nm))
         return '\n'.join(out)
